@@ -48,6 +48,18 @@ def build_driver(force=False):
         raise RuntimeError("building tmfacts failed:\n" + r.stdout)
 
 
+def build_driver_locked():
+    """build_driver under the driver's own lock (callers that do not already hold the main cache lock)"""
+    os.makedirs(CACHE, exist_ok=True)
+    lock = open(os.path.join(CACHE, "lock-driver"), "w")
+    fcntl.flock(lock, fcntl.LOCK_EX)
+    try:
+        build_driver()
+    finally:
+        fcntl.flock(lock, fcntl.LOCK_UN)
+        lock.close()
+
+
 def tree_hash(repo=None):
     repo = repo or REPO
     h = hashlib.sha256()
